@@ -22,6 +22,9 @@ R8  a new element initialises its whole family: for every capacity family of C16
     compared with the capacity in the growth test; each function that does K = K + 1 stores G[new K] for every array G of
     the family on every returning path (on the paths of the mode in which G is read, when all reads of G share option
     tests), directly, through a local copy of K, or through a direct callee; arrays filled later are reasoned exemptions.
+R9  local heap arrays are read only where they were written: for every local pointer that only ever holds malloc-style
+    blocks, a forward must-analysis collects the written indices (points: constants / globals / a counter after its loop =
+    bound + 1; ranges: fill loops for i = a..b); every read with a decidable index must be inside them on every path.
 R5  the output location does not influence the content: env.use_stdout steers only the freopen decision in
     check_options() and one letter of the -v statistics on stderr.
 """
@@ -1166,6 +1169,206 @@ def r8(prog, rep, exempt=R8_EXEMPT, anchors=True):
     rep.note('C18.R8 element counters, creators and arrays derived from the IR: ' + ' | '.join(table))
     return n, table
 
+# ================================================================ R9  local heap arrays are read only where they were written
+
+LOCAL_ALLOCS = ('allocate_array', 'malloc', 'reallocate_array', 'realloc', 'reallocarray')
+
+def _glin(f, v, res):
+    """_resolved_lin(v) if it mentions only constants and globals, else None"""
+    li = _resolved_lin(f, v, res)
+    if li is None: return None
+    for a in li:
+        if a != 1 and (a[0] != 'load' or a[1][0] != 'global'): return None
+    return li
+
+def _fz(li): return frozenset(li.items())
+def _shift(li, k):
+    out = dict(li); out[1] = out.get(1, 0) + k
+    return {a: c for a, c in out.items() if c}
+def _cdiff(a, b):
+    """a - b when it is a constant, else None (a, b: frozen linear forms)"""
+    d = dict(a)
+    for k_, v_ in b: d[k_] = d.get(k_, 0) - v_
+    d = {k_: v_ for k_, v_ in d.items() if v_}
+    if set(d) <= {1}: return d.get(1, 0)
+    return None
+
+def counted_loops(prog, f, res):
+    """loops `for (i = a; i <= b; ++i)` of f: dicts with ctr (frozen local), a, b (linear in globals; a may be None),
+    header branch, body blocks, exit label"""
+    cfg = prog.cfg(f, cut=False); out = []
+    for H in f.blocks:
+        br = H.ins[-1]
+        be = branch_edges(f, br) if br.op == 'br' else None
+        if be is None or be[0].pred not in ('sle', 'slt'): continue
+        ic, tl, fl = be
+        l0 = lin(f, ic.ops[0], res)
+        if l0 is None or len(l0) != 1 or list(l0.values()) != [1]: continue
+        ctr = next(iter(l0))
+        if ctr == 1 or ctr[0] != 'load' or ctr[1][0] != 'local': continue
+        U = _glin(f, ic.ops[1], res)
+        if U is None: continue
+        b = U if ic.pred == 'sle' else _shift(U, -1)
+        body = {x.blk for x in cfg.reach_from_block(f.bmap[tl])} & {bb for bb in f.blocks if H in {y.blk for y in cfg.reach_from_block(bb)}}
+        if not body: continue
+        stores = [x for x in f.ins if x.op == 'store' and flow._freeze(res.loc(x.ops[1])) == ctr[1]]
+        inside = [x for x in stores if x.blk in body]
+        if not inside or any(lin(f, x.ops[0], res) != {ctr: 1, 1: 1} for x in inside): continue
+        a = None; inits = []
+        for x in stores:
+            if x.blk in body: continue
+            if br in cfg.reach(x, avoid=[y for y in stores if y is not x]): inits.append(x)
+        if len(inits) == 1: a = _glin(f, inits[0].ops[0], res)
+        out.append({'ctr': ctr, 'a': a, 'b': b, 'br': br, 'body': body | {H}, 'exit': fl, 'stores': stores, 'H': H})
+    return out
+
+def index_form(prog, f, idx, at, res, loops, cfg):
+    """('pt', lin) | ('rg', a, b) | None (data) for the value(s) the index takes at instruction `at`"""
+    li = _resolved_lin(f, idx, res)
+    if li is None: return None
+    loc = [a for a in li if a != 1 and a[0] == 'load' and a[1][0] == 'local']
+    if any(a != 1 and a not in loc and (a[0] != 'load' or a[1][0] != 'global') for a in li): return None
+    if not loc: return ('pt', _fz(li))
+    if len(loc) != 1 or li[loc[0]] != 1: return None
+    ctr = loc[0]; rest = {a: c for a, c in li.items() if a != ctr}
+    def plus(base): 
+        o = dict(base)
+        for a, c in rest.items(): o[a] = o.get(a, 0) + c
+        return {a: c for a, c in o.items() if c}
+    for L in loops:
+        if L['ctr'] != ctr: continue
+        if at.blk in L['body'] and at.blk is not L['H']:
+            if L['a'] is None: return None
+            return ('rg', _fz(plus(L['a'])), _fz(plus(L['b'])))
+    for L in loops:
+        if L['ctr'] != ctr or at.blk in L['body']: continue
+        if edge_dominates(cfg, f, L['br'], L['exit'], at):
+            mid = cfg.reach_from_block(f.bmap[L['exit']], avoid=[at])
+            if any(x in mid and at in cfg.reach(x) for x in L['stores']): continue
+            return ('pt', _fz(plus(_shift(L['b'], 1))))        # the counter after the loop (assuming the loop starts at or below bound + 1)
+    # a constant assigned directly
+    sts = [x for x in f.ins if x.op == 'store' and flow._freeze(res.loc(x.ops[1])) == ctr[1]]
+    reach = [x for x in sts if at in cfg.reach(x, avoid=[y for y in sts if y is not x and y is not at])]
+    if len(reach) == 1:
+        g = _glin(f, reach[0].ops[0], res)
+        if g is not None: return ('pt', _fz(plus(g)))
+    return None
+
+def _covered(form, facts):
+    if form[0] == 'pt':
+        if form in facts: return True
+        for ft in facts:
+            if ft[0] == 'rg':
+                lo = _cdiff(form[1], ft[1]); hi = _cdiff(ft[2], form[1])
+                if lo is not None and hi is not None and lo >= 0 and hi >= 0: return True
+        return False
+    for ft in facts:
+        if ft[0] != 'rg': continue
+        lo = _cdiff(form[1], ft[1])
+        if lo is None or lo < 0: continue
+        top = ft[2]
+        while True:
+            hi = _cdiff(top, form[2])
+            if hi is not None and hi >= 0: return True
+            nxt = _fz(_shift(dict(top), 1))
+            if ('pt', nxt) in facts: top = nxt
+            else: break
+    return False
+
+def _form_str(form):
+    def ls(fz):
+        d = dict(fz); parts = [a[1][1] if c == 1 else '%d*%s' % (c, a[1][1]) for a, c in sorted(d.items(), key=str) if a != 1]
+        if d.get(1): parts.append(str(d[1]))
+        return '+'.join(parts).replace('+-', '-') or '0'
+    return ls(form[1]) if form[0] == 'pt' else '%s..%s' % (ls(form[1]), ls(form[2]))
+
+def r9(prog, rep, anchors=True):
+    n = 0; skipped = 0; arrays_seen = []
+    for f in fns(prog):
+        res = Resolver(f)
+        cand = {}
+        for x in f.ins:
+            if x.op != 'store': continue
+            l = res.loc(x.ops[1])
+            if l[0] != 'local' or l[1].endswith('.addr'): continue
+            d = f.def_of(flow.strip_casts(f, x.ops[0]))
+            ok = x.ops[0] == ('null',) or (d is not None and d.op == 'call' and d.callee in LOCAL_ALLOCS)
+            cand.setdefault(l, []).append(ok)
+        heap = {l for l, oks in cand.items() if all(oks) and any(True for _ in oks)}
+        heap = {l for l in heap if any(x.op == 'store' and res.loc(x.ops[1]) == l and x.ops[0] != ('null',) for x in f.ins)}
+        if not heap: continue
+        def elem(ptr):
+            g = f.def_of(flow.strip_casts(f, ptr))
+            if g is None or g.op != 'getelementptr' or len(g.ops) != 2: return None
+            b = f.def_of(flow.strip_casts(f, g.ops[0]))
+            if b is None or b.op != 'load': return None
+            l = res.loc(b.ops[0])
+            return (l, g.ops[1]) if l in heap else None
+        acc = [(x, elem(x.ops[0] if x.op == 'load' else x.ops[1])) for x in f.ins if x.op in ('load', 'store')]
+        acc = [(x, e) for x, e in acc if e is not None]
+        if not any(x.op == 'load' for x, e in acc): continue
+        cfg = prog.cfg(f); loops = counted_loops(prog, f, res)
+        forms = {x: index_form(prog, f, e[1], x, res, loops, cfg) for x, e in acc}
+        for P in sorted({e[0] for x, e in acc}, key=str):
+            arrays_seen.append('%s:%s' % (f.name, P[1]))
+            mine = [(x, e) for x, e in acc if e[0] == P]
+            # gen per instruction / per loop exit edge
+            edge_gen = {}
+            for L in loops:
+                latches = [p for p in L['H'].pred if p in L['body']]
+                for x, e in mine:
+                    if x.op == 'store' and x.blk in L['body'] and forms[x] is not None and forms[x][0] == 'rg' and all(cfg.dominates(x.blk, lt) for lt in latches):
+                        li = _resolved_lin(f, e[1], res)
+                        if li is not None and L['ctr'] in li:
+                            edge_gen.setdefault((L['H'], L['exit']), set()).add(forms[x])
+            def kills(x, facts):
+                if x.op == 'store':
+                    l = res.loc(x.ops[1])
+                    if l == P and x.ops[0] != ('null',):
+                        d = f.def_of(flow.strip_casts(f, x.ops[0]))
+                        if d is not None and d.callee in ('allocate_array', 'malloc'): return set()
+                    if l[0] == 'global':
+                        return {ft for ft in facts if not any(a != 1 and a[1] == l for part in ft[1:] for a, _ in part)}
+                elif x.op in ('call', 'invoke') and isinstance(x.callee, str) and prog.fn(x.callee) is not None:
+                    mg = mod_globals(prog, x.callee)
+                    return {ft for ft in facts if not any(a != 1 and a[1][1] in mg for part in ft[1:] for a, _ in part)}
+                return facts
+            IN = {b: None for b in f.blocks}; IN[f.entry] = set(); work = [f.entry]
+            def flow_block(b, st, check=None):
+                st = set(st)
+                for x in b.ins[:cfg._live_len(b)]:
+                    e = dict(mine).get(x)
+                    if e is not None and x.op == 'load' and check is not None: check(x, st)
+                    st = kills(x, st)
+                    if e is not None and x.op == 'store' and forms[x] is not None and forms[x][0] == 'pt': st = st | {forms[x]}
+                return st
+            while work:
+                b = work.pop()
+                st = flow_block(b, IN[b])
+                for t in cfg.succ[b]:
+                    new = st | edge_gen.get((b, t.name), set())
+                    if IN[t] is None: IN[t] = set(new); work.append(t)
+                    else:
+                        m = IN[t] & new
+                        if m != IN[t]: IN[t] = m; work.append(t)
+            def check(x, st):
+                nonlocal n, skipped
+                fm = forms[x]
+                if fm is None: skipped += 1; return
+                n += 1
+                ordn = [y for y, _ in mine if y.op == 'load'].index(x)
+                kk = key('C18.R9', f, '%s[%s]#%d' % (P[1], _form_str(fm), ordn))
+                if _covered(fm, st):
+                    rep.ok('C18.R9', '%s: %s[%s]@%s is read where it was written (%s)' % (f.name, P[1], _form_str(fm), x.line, ', '.join(sorted(_form_str(t) for t in st))))
+                else:
+                    rep.fail('C18.R9', kk, where(x), '%s() reads %s[%s], but on some path to this read the malloc\'ed block %s has only been written at %s: the value is whatever the heap held' % (
+                        f.name, P[1], _form_str(fm), P[1], ', '.join(sorted(_form_str(t) for t in st)) or 'no index'),
+                        replay_input='a REJECT scanner generated twice under different MALLOC_PERTURB_ values: the last yy_accept entry differs')
+            for b in f.blocks:
+                if IN[b] is not None: flow_block(b, IN[b], check)
+    rep.note('C18.R9: local heap arrays with element reads: %s; %d reads with a data-dependent index not decided' % (', '.join(arrays_seen) or '-', skipped))
+    return n
+
 # ================================================================ controls / driver
 
 def controls(ctx):
@@ -1180,6 +1383,8 @@ def controls(ctx):
     expect_control(ctx, 'C18.R4', c, ['bad_reader:nxt-load', 'bad_reader_changed_index:nxt-load', 'bad_marker:chk-store', 'bad_expand:chk-alloc'], must_hold=4)
     c = Collect(); r5(p, c, readers={})
     expect_control(ctx, 'C18.R5', c, ['content_depends:effect-use_stdout'], must_hold=1)
+    c = Collect(); r9(p, c, anchors=False)
+    expect_control(ctx, 'C18.R9', c, ['bad_cap:acc['], must_hold=3)
     c = Collect(); r8(p, c, exempt={}, anchors=False)
     expect_control(ctx, 'C18.R8', c, ['new_item:item_c[n_items]', 'new_item:item_d[n_items]'], must_hold=3)
     c = Collect(); r7(p, c, anchors=False)
@@ -1197,6 +1402,7 @@ def run(ctx):
     c = {}
     c['R1'] = r1(prog, rep); c['R2'] = r2(prog, rep); c['R3'] = r3(prog, rep); c['R4'] = r4(prog, rep); c['R5'] = r5(prog, rep) + r5b(prog, rep); c['R6'] = r6(prog, rep); c['R7'], r7table = r7(prog, rep)
     c['R8'], r8table = r8(prog, rep)
+    c['R9'] = r9(prog, rep)
     rep.setcount('element_counter_families', len(r8table))
     rep.setcount('unions_with_members_of_different_size', len(r7table))
     rep.setcount('translation_units', len(prog.modules)); rep.setcount('functions_analysed', len(fns(prog)))
@@ -1206,6 +1412,7 @@ def run(ctx):
     rep.floor('C18.R3', 10, '3 bucket arrays: 7 uses in sym.c + 4 table-parameter uses in addsym/findsym')
     rep.floor('C18.R4', 24, '11 nxt[] loads in gentabs/genctbl/mkctbl, 16 chk[] stores, 2 chk allocations')
     rep.floor('C18.R5', 2, 'env.use_stdout is read in check_options() and flexend()')
+    rep.floor('C18.R9', 6, '8 reads of the local heap array acc_array in gentabs today (a cap read through a temporary makes it 7)')
     rep.floor('C18.R8', 28, '(creator, array) obligations today: mkstate 9, scinstal 5, cclinit 4, new_rule 4, snstods 8, sf_push 1, plus the exempted chk/nxt cursors')
     rep.floor('C18.R7', 3, 'loads of dfaacc_union.dfaacc_set in check_for_backing_up, snstods, gentabs')
     rep.floor('C18.R6', 12, 'slot-0 readers today: base x3, dfaacc x2, chk x2, nxt x2; jam-slot readers: base x3 (genctbl, mkctbl, gentabs), def x1 (gentabs)')
